@@ -115,6 +115,16 @@ def _doc_case(ctx, idx):
     root, spec = srdocs.content_tree(r, pool, depth=depth, scoord3d=scoord3d, foreign=foreign,
                                      allow_empty_root=allow_empty_root,
                                      scoord3d_weight=r.choice([1, 1, 2]))
+    root_kind = r.choice(['container'] * 30 + ['related', 'text'])
+    if root_kind == 'related':
+        # a root item that claims a relationship with a parent
+        root.RelationshipType = 'CONTAINS'
+        spec['rel'] = 'CONTAINS'
+    elif root_kind == 'text':
+        import highdicom as hd
+        from pydicom.sr.codedict import codes
+        root = hd.sr.TextContentItem(name=codes.DCM.Finding, value='not a container')
+        spec = {'id': 1, 'vt': 'TEXT', 'name': ('121071', 'DCM'), 'rel': None, 'ref': None, 'has_seq': False, 'children': []}
     refs = srdocs.referenced(spec)
     evidence, mode = srdocs.evidence_list(r, pool, refs)
     if r.random() < 0.03:
@@ -136,7 +146,7 @@ def _doc_case(ctx, idx):
                                                 '1.2.840.10008.5.1.4.1.1.88.33', modality='SR', image=False))
     as_seq = r.choice([0] * 14 + [1] * 5 + [2])   # 0 data set, 1 sequence of one, 2 sequence of two
     return {'idx': idx, 'pool': pool, 'cls': cls, 'root': root, 'spec': spec, 'refs': refs, 'evidence': evidence,
-            'mode': mode, 'flags': flags, 'prev': prev, 'as_seq': as_seq, 'depth': depth}
+            'mode': mode, 'flags': flags, 'prev': prev, 'as_seq': as_seq, 'depth': depth, 'root_kind': root_kind}
 
 
 def _expected(c):
@@ -150,6 +160,8 @@ def _expected(c):
         reasons.append('verified-without-details')
     if c['as_seq'] == 2:
         reasons.append('two-roots')
+    if c['root_kind'] != 'container':
+        reasons.append('root-' + c['root_kind'])
     first = {}
     for e in c['evidence']:
         first.setdefault(str(e.SOPInstanceUID), (str(e.StudyInstanceUID), str(e.SeriesInstanceUID),
@@ -266,7 +278,7 @@ def _check_doc(ctx, c, reqs, pending):
              outcome=('ok' if ok else res[2].split(':')[0]), refusal=('+'.join(reasons) or ('neutral' if neutral else 'none')),
              depth=c['depth'], n_items=min(sum(1 for _ in srdocs.walk(spec)), 40), n_referenced=min(n_ref, 12),
              n_other=min(n_oth, 12), record=c['flags']['record_evidence'], verified=c['flags']['is_verified'],
-             studies=len({p['study'] for p in c['pool']}), as_seq=c['as_seq'])
+             studies=len({p['study'] for p in c['pool']}), as_seq=c['as_seq'], root=c['root_kind'])
     # ---- model request (L0: ok-vs-error, evidence sequences, get_evidence)
     f = c['flags']
     reqs.append(('buildSR', {'cls': c['cls'], 'tree': spec_to_model(spec), 'evidence': evd_to_model(c['evidence']),
